@@ -4,6 +4,7 @@ from ..mon import f2hex, hex_f2
 from ..rm import q, r, h32, f2mul, f2neg, F1, F2
 
 ID = 'C14'
+PERTURB = (60, 400)      # cases re-run in the repeat / parallel perturbation passes (quick, thorough): decoders and square roots are cheap
 EXES = ['release']
 RULE = ('each event is Fq::sqrt, Fq2::sqrt or a compressed-point decode; Some(s) is judged by squaring s in the model, '
         'Some/None by Euler\'s criterion (Fq) resp. the norm criterion (Fq2); which of the two roots is returned is not judged. '
